@@ -51,7 +51,7 @@ class Function:
             cur = [[p[0], p[3], p[2]] for p in self.params]
             seen = set()
             for nd in self.nodes:
-                if nd["k"] == "Var" and nd["decl"] not in seen:
+                if nd["k"] == "Var" and nd["decl"] not in seen and "inl" not in nd:
                     seen.add(nd["decl"])
                     cur.append([nd["name"], nd.get("ct", nd.get("t", "")), nd["decl"]])
             ren = {}
@@ -314,6 +314,12 @@ class Function:
                 v = self.rd.unique_def_value(i)
                 if v is not None and (self._thru_calls or not self._is_alloc(v)):
                     return self._canon(v, subst, fold, casts, depth - 1, inl, stack + (nd["decl"],))
+                if v is None:
+                    # `if (c) x = A; else x = B;` reads like `x = c ? A : B`
+                    dm = self.rd.diamond_def(i)
+                    if dm is not None:
+                        st2 = stack + (nd["decl"],)
+                        return "(%s ? %s : %s)" % (self._truth(dm[0], subst, fold, casts, depth - 1, inl, st2), self._canon(dm[1], subst, fold, casts, depth - 1, inl, st2), self._canon(dm[2], subst, fold, casts, depth - 1, inl, st2))
             return nd["name"]
         if k == "Member":
             b = nd["ch"][0]
@@ -382,7 +388,7 @@ class Function:
                     return r
             return "%s(%s)" % (cal, ", ".join(C(a) for a in nd["ch"][1:]))
         if k == "Cond":
-            return "(%s ? %s : %s)" % (C(nd["ch"][0]), C(nd["ch"][1]), C(nd["ch"][2]))
+            return "(%s ? %s : %s)" % (self._truth(nd["ch"][0], subst, fold, casts, depth, inl, stack), C(nd["ch"][1]), C(nd["ch"][2]))
         if k == "Sizeof":
             return "sizeof(%s)" % nd.get("cty", nd.get("ty"))
         if k == "InitList":
@@ -396,6 +402,19 @@ class Function:
         if k == "Absent":
             return ""
         return "<%s>" % k
+
+    def _truth(self, i, subst, fold, casts, depth, inl, stack):
+        """an expression used for its truth value: `x != 0` reads `x`, `x == 0` reads `!x`"""
+        j = self.strip(i)
+        nd = self.nodes[j]
+        if nd["k"] == "Bin" and nd["op"] in ("!=", "=="):
+            a, b = nd["ch"]
+            for (x, z) in ((a, b), (b, a)):
+                zn = self.nodes[self.strip(z)]
+                if zn["k"] == "Null" or (zn["k"] == "Int" and zn.get("v") == 0) or (zn.get("cv") == 0 and zn["k"] not in ("DeclRef", "Member", "Subscript", "Call", "Bin", "Un")):
+                    r = self._canon(x, subst, fold, casts, depth, inl, stack)
+                    return r if nd["op"] == "!=" else "!" + self._wrap(r)
+        return self._canon(i, subst, fold, casts, depth, inl, stack)
 
     def def_forms(self, use_node, subst=True, calls=False):
         """canonical forms of every definition of a local that reaches
@@ -958,6 +977,50 @@ class ReachingDefs:
         self._udv[key] = res
         return res
 
+    def diamond_def(self, use_node):
+        """(cond, value_if_true, value_if_false) when exactly two definitions reach the use and they are
+        plain assignments forming the two arms of one if / else, with forward substitution valid for
+        everything they and the condition mention"""
+        fn = self.fn
+        r = self.reaching(use_node)
+        if len(r) != 2:
+            return None
+        ds = [self.defs[x] for x in r]
+        if any(d[1] == "param" or d[2] in (None, "uninit") or fn.nodes[d[1]]["k"] != "Assign" for d in ds):
+            return None
+
+        def arm(node):
+            p = fn.parent[node]
+            c = node
+            if p is not None and fn.nodes[p]["k"] == "Compound" and len([x for x in fn.nodes[p]["ch"] if fn.nodes[x]["k"] != "Absent"]) == 1:
+                c, p = p, fn.parent[p]
+            if p is not None and fn.nodes[p]["k"] == "If":
+                ch = fn.nodes[p]["ch"]
+                if len(ch) >= 3 and c == ch[1]:
+                    return p, True
+                if len(ch) >= 3 and c == ch[2]:
+                    return p, False
+            return None, None
+        (i1, t1), (i2, t2) = arm(ds[0][1]), arm(ds[1][1])
+        if i1 is None or i1 != i2 or t1 == t2:
+            return None
+        cond = fn.nodes[i1]["ch"][0]
+        vt, vf = (ds[0][2], ds[1][2]) if t1 else (ds[1][2], ds[0][2])
+        decl = ds[0][0]
+        for (expr, at) in ((cond, cond), (vt, vt), (vf, vf)):
+            seen = set()
+            for j in fn.walk(expr):
+                nd = fn.nodes[j]
+                if nd["k"] in ("Call", "Assign", "CompoundAssign"):
+                    return None
+                if nd["k"] == "DeclRef" and nd["ref"] in ("local", "param") and nd["decl"] not in seen:
+                    seen.add(nd["decl"])
+                    if nd["decl"] == decl:
+                        return None
+                    if set(self.reaching(j)) != set(self.reaching(use_node, nd["decl"])):
+                        return None
+        return cond, vt, vf
+
     def def_values(self, use_node):
         """list of (def_node, value_node|None|'uninit'|'param')"""
         out = []
@@ -1002,6 +1065,9 @@ class Program:
             self.records.update(d["records"])
             self.enums.update(d["enums"])
             self.typedefs.update(d["typedefs"])
+            # functions that are new w.r.t. the recorded anchors are presented inside their callers (inline.py)
+            from . import inline
+            inline.inline_new_functions(u, d, _anchors())
             fns = {}
             for fd in d["functions"]:
                 fns[fd["name"]] = Function(fd, u, self)
